@@ -34,6 +34,12 @@
            does ([inv_conditions]), so does the walker.  First client at the
            end of the file: the top-level output only grows ([out_grows]).
 
+   Two companions: Proofs/InterpGuard.v (the same principle restricted to the nodes
+   satisfying a guard [deep g n], with a separate predicate for the walks of callees'
+   template nodes -- for properties that are false of some node kinds) and
+   Proofs/InterpRel.v (the relational form: [walk_body cf w n] is parametric in [w];
+   used to show that an instrumented walker is the walker, Proofs/ModeProofs.v).
+
    How to use it (C02/C06/C07/C09/C19): for a uniform invariant instantiate
    [inv_walk] (Part C).  For a relational or otherwise bespoke predicate on
    computations build a [walker_logic] record and apply [walk_logic].  For
